@@ -15,7 +15,10 @@ PayloadReason(e) ==
          IF e.big THEN (IF ValidSplitLens(e.len, e.mtu, e.lens, e.facts) THEN "" ELSE "split_shape")
          ELSE IF ValidSplit(Inp(e), e.mtu, e.frags) THEN ""
          ELSE IF Flatten(e.frags) # Inp(e) THEN "split_not_lossless" ELSE "split_shape"
-  ELSE IF ValidOpus(Inp(e), e.frags) THEN "" ELSE "opus_not_passthrough"
+  ELSE IF ~ValidOpus(Inp(e), e.frags) THEN "opus_not_passthrough"
+  \* "returns one fragment equal to the input": an empty (non-nil) byte string is an input of length 0 and comes back as one empty fragment
+  ELSE IF e.len = 0 /\ ~e.isnil /\ e.frags # <<(<<>>)>> THEN "opus_empty_input_not_one_fragment"
+  ELSE ""
 
 Reason(e, s) ==
   CASE e.ev = "payload" -> PayloadReason(e)
